@@ -24,7 +24,7 @@ CLAIMS = {
              "half-operator or above - a duplicate-free list, so absent/repeated names are harmless - and selects nobody for an absent channel (403), an outsider (442) or a rank below half-operator (482), "
              "in which case nothing changes; the new state is the removal of the selected victims through remove_user_from_channel; TOPIC is set only by a member and on +t only by half-operator or "
              "above, stored with the setter's nick (empty text clears) and relayed to every member; INVITE is honoured only from a member (operator flag on +i) for a registered non-member, records "
-             "the invitation and reaches exactly the invited user; every refusal leaves the state identical.",
+             "the invitation and reaches exactly the invited user; every refusal leaves the state identical; GRANTS ONE ADMISSION: the recorded invitation admits its holder past +i whatever the invite-exception list says (C09_invitation_admits), any accepted JOIN to that channel - existing, or re-created after it vanished with the invitation pending - removes exactly that invitation, after which the holder is not admitted to the invite-only channel again (C09_invitation_used_once), and a refused JOIN entry leaves the pending invitations alone.",
         design_ref="5 (C09)"),
     "C16": dict(
         technique="Coq proof (channel creation, removal of the last member, configured channels at start-up and default ranks on join) + create-use-empty-recreate life-cycle sweep over six ways of leaving against the real server",
@@ -82,7 +82,7 @@ CLAIMS = {
         technique="Coq proof (global step theorem: operator status only through an accepted OPER of the connection itself or the default modes at registration, by a modes/owner frame through all 41 commands, teardown and KILL delivery; characterisation of OPER; no-grant frame of the user-mode interpreter; exact results of KILL/DIE/SQUIT/WALLOPS/STATS per privilege) + privilege-level sweep and an operator-status oracle on the real server",
         text="Theorems (props/C11.v): C11_operator_only_from_oper - for every step of every connection from a world satisfying the invariant, a user who is an operator afterwards was one before on the same "
              "connection, or belongs to the acting connection whose line was an OPER naming a configured operator with the verifying password from a matching source, or has just registered under default "
-             "modes containing +o; no other of the 40 commands creates an operator or local operator (C11_no_other_command_confers); OPER confers iff configured name, password, mask; MODE on the own nick "
+             "modes containing +o; no other of the 40 commands creates an operator or local operator (C11_no_other_command_confers); NO USER CAN CHANGE ANOTHER USER'S MODES and operator status is LOST ONLY BY REMOVING THE MODE OR DISCONNECTING, over every event of every connection: a record after a step carries the user modes of a record of the same connection before it unless the event is that connection's own MODE or OPER line (OPER never clears the operator flag) or its registration (C11_modes_follow_commands, modes frame through all 41 commands, registration, teardown, KILL delivery), hence a user who stays connected and is no longer an operator has sent a MODE command itself in that step (C11_oper_lost_only_by_own_mode); OPER confers iff configured name, password, mask; MODE on the own nick "
              "never turns an operator flag on and changes only the own mode field; MODE on a foreign nick changes nothing; KILL/DIE/SQUIT/WALLOPS/STATS from an unprivileged user give the privilege error and "
              "the identical state; permitted KILL marks exactly the named user and the delivery closes exactly the owners of marked users; WALLOPS reaches exactly the +w users; as whole steps: KILL closes exactly the victim's connection with the ERROR line naming killer and comment and removes exactly that record, DIE leaves no user and no registered connection (C11_kill_effect, C11_die_ends_all).",
         design_ref="5 (C11)"),
@@ -115,7 +115,7 @@ CLAIMS = {
              "command, middle parameters separated by blank runs of any kind and length, optional ' :'-introduced trailing text of any content, trailing blanks - is tokenised to exactly its parts "
              "(C13_grammar_complete); serialising a message with a source and tokenising the result gives back exactly source, command and parameters (C13_serialise_parse, C13_relay_reparses); a verb outside the table is answered 421 "
              "with the upper-cased name, a known verb with fewer parameters than its arity 461, and with enough parameters the line is executed as exactly that verb or answered with a "
-             "parameter-specific error - never 421/461 (all 41 verbs, every arity); an unparsable line changes nothing and an empty line is ignored; the framing model (split at LF, strip CR, 2000-byte limit) yields the same "
+             "parameter-specific error - never 421/461 (all 41 verbs, every arity); an unparsable line changes nothing and an empty line is ignored; every emitted line is one CRLF-terminated message: what the encoder writes for any list of LF-free lines is framed by the same codec into exactly those lines, in order, nothing left over (C13_encode_decode; Frame.encode is run against IRCLinesCodec::encode on every check, incl. lines beyond 2000 bytes with multi-byte characters across the limit); the framing model (split at LF, strip CR, 2000-byte limit) yields the same "
              "frames however the byte stream is cut into segments, an over-long line is reported as such, never executed, and a received line never contains LF (C13_segmentation_invariant, C13_overlong_not_executed, C13_received_lines_have_no_lf). the format!-built relays PART, KICK, PRIVMSG/NOTICE re-parse to verb, target and text for every text (C13_relay_part, C13_relay_kick, C13_relay_msg). CRLF termination "
              "and the 301 relay are decided per run on the real server (L2); the framing model is the one the extracted program runs against the real LinesCodec.",
         design_ref="5 (C13)",
